@@ -125,7 +125,9 @@ def check(prop, tier, seed):
         lemma_results = mod.lemmas(tier, SRC)
 
     # ---- symbolic obligations over a process pool
-    nb = max(1, min(len(specs), NPROC * (3 if len(specs) > 64 else 1)))
+    specs.sort(key=lambda s: -float(s.get("timeout", 60)))          # long obligations first (better packing); ties keep the seeded order
+    nb = len(specs) if len(specs) <= 96 else NPROC * 6
+    nb = max(1, nb)
     batches = [specs[i::nb] for i in range(nb)]
     results = []
     with cf.ThreadPoolExecutor(max_workers=NPROC) as ex:
